@@ -51,7 +51,7 @@ func resultShape(input string, schema bool, limit int) string {
 			return "nil document with nil error"
 		}
 		if err != nil {
-			if ge, ok := err.(*gqlerror.Error); ok && ge.Message == "" {
+			if ge, ok := err.(*gqlerror.Error); ok && (ge == nil || ge.Message == "") {
 				return "error with empty message"
 			}
 		}
